@@ -263,6 +263,27 @@ fn main() {
           show_edits(&hooks::module_diff_edits(&heap, ModuleReference::DUMMY, &old, &new))
         }
         "sum" => summarize(&unhex_str(t[1])),
+        // locations of the imports of a text + each import rendered the way `to_edit` renders it
+        "ilocs" => {
+          let text = unhex_str(t[1]);
+          let mut heap = Heap::new();
+          let mut es = ErrorSet::new();
+          let m = samlang_parser::parse_source_module_from_text(&text, ModuleReference::DUMMY, &mut heap, &mut es);
+          if es.has_errors() {
+            return "skip".to_string();
+          }
+          if m.imports.is_empty() {
+            return "-".to_string();
+          }
+          m.imports
+            .iter()
+            .map(|i| {
+              let printed = samlang_printer::pretty_print_import(&heap, 100, &m.comment_store, i);
+              format!("{}={}", loc_str(&i.loc), hex(printed.trim_end().as_bytes()))
+            })
+            .collect::<Vec<_>>()
+            .join(",")
+        }
         _ => "bad-op".to_string(),
       }
     }));
